@@ -9,6 +9,12 @@ P=$1; WT=$2; I=$3; shift 3; EXTRA="$*"
 M=$WT/mutants; D=$M/m$I.diff
 [ -f "$D" ] || { echo "no $D"; exit 2; }
 cd "$WT" || exit 2
+if [ -f "$M/confirm$I.txt" ]; then
+  # step 1 was done earlier (ONLY_CONFIRM=1): reuse its verdict
+  . "$M/confirm$I.txt"
+  DEMOS=$(ls $M/demo${I}*_test.go 2>/dev/null)
+  echo "[$P m$I] (cached) builds=$builds demo-without=$without demo-with=$with suite-unexpected-failures='${suite}'"
+else
 git checkout -q -- . ; rm -f zz_demo*_test.go
 DEMOS=$(ls $M/demo${I}*_test.go 2>/dev/null)
 PKGDIR=.
@@ -27,6 +33,9 @@ mv $PKGDIR/zz_demo*_test.go /tmp/x/ 2>/dev/null
 suite=$(go test -vet=off -count=1 . ./internal/... 2>&1 | grep -E "^\s*--- FAIL" | grep -v "TestAdd \|permission_denied\|TestWatchMultipleWrite" | tr -s ' ' | paste -sd';')
 git checkout -q -- .
 echo "[$P m$I] builds=$builds demo-without=$without demo-with=$with suite-unexpected-failures='${suite}'"
+printf 'builds=%q\nwithout=%q\nwith=%q\nsuite=%q\n' "$builds" "$without" "$with" "$suite" > "$M/confirm$I.txt"
+fi
+[ -n "${ONLY_CONFIRM:-}" ] && exit 0
 # 2) run my checks against it
 cd /verif
 git -C /repo apply "$D" 2>/dev/null || git -C /repo apply --3way "$D" || { echo "does not apply to /repo"; git -C /repo reset -q --hard HEAD; exit 2; }
